@@ -44,7 +44,7 @@ def floors(tier):
             "valid": 3000, "invalid": 3000,
             "keyword_cells_both_outcomes": 100,   # of 107 (draft, keyword) cells
             "distinct_nontrivial": 10000,
-            "calibration_cases": 2000, "consulting_pairs_enumerated": 500}
+            "calibration_cases": 2000, "consulting_pairs_enumerated": 500, "shape_pairs_enumerated": 2000}
 
 
 def classify(case, detail):
@@ -174,6 +174,29 @@ def _core(ctx):
                 ig = InstGen(random.Random(idx), s)
                 for inst in V.ALL_REPS[::3] + ig.batch(10):
                     compare(ctx, d, s, inst, gate=False, tag="consulting-pair")
+    # ... and with every value SHAPE the metaschema admits for them (boolean items next to additionalItems, empty
+    # arrays and objects, ...): what check_schema lets through also has a specified meaning
+    from vf.props.c03 import CONSULT as CONSULT3, SHAPES
+    for d in impl.DRAFTS:
+        ok = {}
+        for a, b in CONSULT3:
+            for kw in (a, b):
+                if kw not in ok and kw in VOCAB[d]:
+                    ok[kw] = [sh for sh in SHAPES if _gate_quiet(d, {kw: sh})]
+        for a, b in CONSULT3:
+            if a not in ok or b not in ok:
+                continue
+            for sa in ok[a]:
+                for sb in ok[b]:
+                    idx += 1
+                    if not ctx.mine(idx):
+                        continue
+                    s = {a: sa, b: sb}
+                    if not _gate_quiet(d, s):
+                        continue
+                    ctx.count("shape_pairs_enumerated")
+                    for inst in SHAPE_INSTANCES:
+                        compare(ctx, d, s, inst, gate=False, tag="shape-pair")
     if ctx.tier == "thorough":
         for d in impl.DRAFTS:
             g = SchemaGen(random.Random(777 + d), d, maxdepth=2)
@@ -195,6 +218,17 @@ def _core(ctx):
                         ig = InstGen(random.Random(idx), s)
                         for inst in V.ALL_REPS[::2] + ig.batch(8):
                             compare(ctx, d, s, inst, gate=False, tag="pair")
+
+
+SHAPE_INSTANCES = [None, True, 0, 1, 1.0, 1.5, "", "a", "ab", [], [1], [1, "a"], [1, 1], [[], {}], {}, {"a": 1}, {"a": 1, "b": "x"},
+                   {"ab": None}, 2, -1, 10 ** 20, [True, 1], {"a": {"a": 1}}, [{"a": 1}, 2, None]]
+
+
+def _gate_quiet(d, schema):
+    try:
+        return impl.accepts(d, schema)
+    except Exception:
+        return False
 
 
 def _gate(ctx, d, schema):
